@@ -134,7 +134,7 @@ func editKind(name string) string {
 func TestC01(t *testing.T) {
 	r := vcore.Start(t, "C01")
 	cvs := curves.Tier(r.Quick())
-	nCirc := r.Pick(8, 40)
+	nCirc := r.Pick(4, 40)
 	type job struct {
 		ops *cvapi.Ops
 		idx int
